@@ -622,6 +622,25 @@ class Schema:
             st.heap["$tree_content"] = z3.Store(eng.field_array(st, "$tree_content"), r,
                                                 z3.Store(content, x, name == "add"))
             return sv_none()
+        if name == "update":
+            other = eng.as_set(args[0], st).t
+            u = fresh("U", SetSort)
+            x = fresh("x", Val)
+            st.define(z3.ForAll([x], z3.Select(u, x) == z3.Or(z3.Select(content, x), z3.Select(other, x))))
+            st.heap["$tree_content"] = z3.Store(eng.field_array(st, "$tree_content"), r, u)
+            return sv_none()
+        if name == "remove":
+            x = to_val(args[0])
+            s2 = st.fork()
+            s2.assume(z3.Not(z3.Select(content, x)))
+            eng.exc_paths.append((s2, Exc("ValueError")))
+            st.assume(z3.Select(content, x))
+            eng.card_axioms_store(st, content, x, False)
+            st.heap["$tree_content"] = z3.Store(eng.field_array(st, "$tree_content"), r, z3.Store(content, x, False))
+            return sv_none()
+        if name == "clear":
+            st.heap["$tree_content"] = z3.Store(eng.field_array(st, "$tree_content"), r, EmptySet)
+            return sv_none()
         if name in ("begin", "end", "span"):
             # assumed contract of intervaltree: begin() = least begin, end() = greatest end (0 if empty)
             v = fresh("v", Val)
